@@ -1,4 +1,128 @@
-import GcmpyModel.Model.Handshake
+import GcmpyModel.Lemmas.Handshake
+/-!
+# C05 — the handshaking-lemma repair (`JointDegree.handshaking_lemma`, `sample_jds_from_jdd`)
+
+`handshake sizes jds picks` is the repaired joint degree sequence, `picks` the successive
+`randrange(0, N)` results (an exhausted list yields 0, which is in range because `N ≥ 1`; no
+"enough picks" hypothesis is needed).  `deg jds v i` is entry `i` of row `v`, `Rect jds T` says that
+every row has length `T`.  Standing hypotheses (each theorem lists only the ones it uses):
+
+* `hR : Rect jds T`, `hN : jds ≠ []`         — a non-empty sequence of `T`-tuples,
+* `hp : ∀ p ∈ picks, p < jds.length`         — picks are `randrange(0, N)` results,
+* `hs : ∀ i < T, 0 < sizes.getD i 0`         — positive motif sizes (size 0 raises in Python).
+
+All statements hold for every `sizes`, `jds`, `picks`.
+-/
 namespace Gcmpy.Handshake
-theorem placeholder_c05 : True := trivial
+open Gcmpy.Generate
+
+section
+variable (sizes : List Nat) (T : Nat) (jds : List (List Nat)) (picks : List Nat)
+
+/-- 1a. the number of vertices is unchanged -/
+theorem length_preserved (hR : Rect jds T) (hN : jds ≠ []) (hp : ∀ p ∈ picks, p < jds.length) :
+    (handshake sizes jds picks).length = jds.length :=
+  (handshake_spec sizes T jds picks hR hN hp).1
+
+/-- 1b. every row keeps its length -/
+theorem rect_preserved (hR : Rect jds T) (hN : jds ≠ []) (hp : ∀ p ∈ picks, p < jds.length) :
+    Rect (handshake sizes jds picks) T :=
+  (handshake_spec sizes T jds picks hR hN hp).2.1
+
+/-- 2. stubs are only ever added -/
+theorem never_removes (hR : Rect jds T) (hN : jds ≠ []) (hp : ∀ p ∈ picks, p < jds.length) :
+    ∀ v i, deg jds v i ≤ deg (handshake sizes jds picks) v i :=
+  (handshake_spec sizes T jds picks hR hN hp).2.2.1
+
+/-- 3. column `i` receives exactly `(size − ntop mod size) mod size` stubs, `ntop` the ORIGINAL column sum -/
+theorem added_exact (hR : Rect jds T) (hN : jds ≠ []) (hp : ∀ p ∈ picks, p < jds.length)
+    (hs : ∀ i < T, 0 < sizes.getD i 0) :
+    ∀ i < T, colSum (handshake sizes jds picks) i =
+      colSum jds i + (sizes.getD i 0 - colSum jds i % sizes.getD i 0) % sizes.getD i 0 := by
+  intro i hi
+  rw [(handshake_spec sizes T jds picks hR hN hp).2.2.2 i hi, need_eq _ _ (hs i hi)]
+
+/-- 4. afterwards every column sum is divisible by its motif size -/
+theorem divisible_after (hR : Rect jds T) (hN : jds ≠ []) (hp : ∀ p ∈ picks, p < jds.length)
+    (hs : ∀ i < T, 0 < sizes.getD i 0) :
+    ∀ i < T, sizes.getD i 0 ∣ colSum (handshake sizes jds picks) i := by
+  intro i hi
+  rw [(handshake_spec sizes T jds picks hR hN hp).2.2.2 i hi]
+  exact dvd_add_need _ _ (hs i hi)
+
+/-- 5. fewer than `size` stubs are added to a column -/
+theorem added_lt_size (hR : Rect jds T) (hN : jds ≠ []) (hp : ∀ p ∈ picks, p < jds.length)
+    (hs : ∀ i < T, 0 < sizes.getD i 0) :
+    ∀ i < T, colSum (handshake sizes jds picks) i - colSum jds i < sizes.getD i 0 := by
+  intro i hi
+  rw [(handshake_spec sizes T jds picks hR hN hp).2.2.2 i hi, Nat.add_sub_cancel_left]
+  exact need_lt _ _ (hs i hi)
+
+/-- 6. minimality: any pointwise-larger sequence of the same shape with divisible column sums has at
+    least as many stubs in every column -/
+theorem added_minimal (hR : Rect jds T) (hN : jds ≠ []) (hp : ∀ p ∈ picks, p < jds.length)
+    (hs : ∀ i < T, 0 < sizes.getD i 0) :
+    ∀ (jds' : List (List Nat)), (∀ v i, deg jds v i ≤ deg jds' v i) → jds'.length = jds.length →
+      Rect jds' T → (∀ i < T, sizes.getD i 0 ∣ colSum jds' i) →
+      ∀ i < T, colSum (handshake sizes jds picks) i ≤ colSum jds' i := by
+  intro jds' hle hlen _ hdvd i hi
+  rw [(handshake_spec sizes T jds picks hR hN hp).2.2.2 i hi]
+  exact add_need_le _ _ _ (hs i hi) (colSum_mono jds jds' hlen hle i) (hdvd i hi)
+
+/-- 7b. column sums already divisible: nothing changes (for any picks) -/
+theorem already_divisible_noop (hR : Rect jds T) (hN : jds ≠ [])
+    (hd : ∀ i < T, sizes.getD i 0 ∣ colSum jds i) : handshake sizes jds picks = jds := by
+  apply handshake_noop
+  rw [ncols_of_rect jds T hR hN]; exact hd
+
+/-- 7a. all motifs are single edges' worth (`size = 1`): nothing changes -/
+theorem size_one_noop (hR : Rect jds T) (hN : jds ≠ [])
+    (h1 : ∀ i < T, sizes.getD i 0 = 1) : handshake sizes jds picks = jds :=
+  already_divisible_noop sizes T jds picks hR hN fun i hi => by rw [h1 i hi]; exact Nat.one_dvd _
+
+/-- 8. the picks left over are the input picks minus the first `picksUsed` (no hypotheses needed) -/
+theorem picks_consumed :
+    (patchAll sizes ((List.range (ncols jds)).map fun i => (colSum jds i, i)) jds picks).2 =
+      picks.drop (picksUsed sizes jds) := by
+  rw [patchAll_snd, picksUsed, List.map_map]
+  rfl
+
+end
+
+/-- 9. the keys and weights handed to `random.choices` are the distribution's items, in the same order,
+    and `k = N` -/
+theorem sample_call_aligned {κ ω : Type} (jdd : List (κ × ω)) (N : Nat) (ks : List κ) (ws : List ω) (k : Nat)
+    (h : sampleCall jdd N = (ks, ws, k)) : ks.zip ws = jdd ∧ k = N ∧ ks.length = ws.length := by
+  unfold sampleCall at h
+  simp only [Prod.mk.injEq] at h
+  rcases h with ⟨rfl, rfl, rfl⟩
+  refine ⟨?_, rfl, by simp⟩
+  induction jdd with
+  | nil => rfl
+  | cons a t ih => simp [ih]
+
+/-! ### non-vacuity -/
+
+/-- sizes (2, 3), column sums (3, 4): one stub goes to column 0 (vertex 2), two to column 1 (vertices 0, 1) -/
+example : handshake [2, 3] [[1, 2], [0, 2], [2, 0]] [2, 0, 1] = [[1, 3], [0, 3], [3, 0]] := by decide
+
+/-- the same with no picks left: every stub goes to vertex 0 -/
+example : handshake [2, 3] [[1, 2], [0, 2], [2, 0]] [] = [[2, 4], [0, 2], [2, 0]] := by decide
+
+/-- three picks are consumed, the fourth is handed back -/
+example : picksUsed [2, 3] [[1, 2], [0, 2], [2, 0]] = 3 ∧
+    (patchAll [2, 3] ((List.range 2).map fun i => (colSum [[1, 2], [0, 2], [2, 0]] i, i))
+      [[1, 2], [0, 2], [2, 0]] [2, 0, 1, 1]).2 = [1] := by decide
+
+/-- the hypotheses of the theorems are satisfiable (by the instance above) -/
+example : Rect [[1, 2], [0, 2], [2, 0]] 2 ∧ [[1, 2], [0, 2], [2, 0]] ≠ ([] : List (List Nat)) ∧
+    (∀ p ∈ [2, 0, 1], p < [[1, 2], [0, 2], [2, 0]].length) ∧ (∀ i < 2, 0 < [2, 3].getD i 0) := by
+  refine ⟨?_, by decide, by decide, by decide⟩
+  unfold Rect; decide
+
+/-- and the conclusions are not trivial there: both column sums change and become divisible -/
+example : colSum [[1, 2], [0, 2], [2, 0]] 0 = 3 ∧ colSum [[1, 2], [0, 2], [2, 0]] 1 = 4 ∧
+    colSum (handshake [2, 3] [[1, 2], [0, 2], [2, 0]] [2, 0, 1]) 0 = 4 ∧
+    colSum (handshake [2, 3] [[1, 2], [0, 2], [2, 0]] [2, 0, 1]) 1 = 6 := by decide
+
 end Gcmpy.Handshake
